@@ -13,7 +13,7 @@ template <typename R1, typename R2>
 struct ratio_divide_impl {
     static_assert(R2::num != 0, "division by zero");
 
-    using type = ratio<R1::num * R2::den, R1::den * R2::num>;
+    using type = typename ratio<R1::num * R2::den, R1::den * R2::num>::type;
 };
 
 } // namespace detail
